@@ -1685,9 +1685,11 @@ PROVED for markers that do not mention BOTH `python_version` and `python_full_ve
 `merge_no_syntax_no_pfv` — the latter uses the version-text invariant of Proofs/ParserTotalVC5.lean), which removes
 the hypothesis from the `*_not_both` statements for `parse_marker` and `Requirement`; it stays a named hypothesis
 for markers holding both variables (the rewriting of a merged `python_full_version` marker, (a3)): the rewritten text
-itself is shown to be readable (`py_rewrite_text_reparses`, all but the `.0`-dropping case); carrying the needed
-invariant on python-named leaves (operator a grammar operator, plain `y`-free value, not swapped unless `in`/`not in`)
-through the merge is what is left.
+itself is shown to be readable (`py_rewrite_text_reparses`, all cases), the model's step is identified with it
+(`merge_python_version_reparses_py_rewrite`) and one step is free of lark's error given two facts about the nested
+merge (`merge_python_version_step_no_syntax_partial`); establishing those — the invariant `PyRw` on python-named leaves
+(operator a grammar operator, plain `y`-free value, not swapped unless `in`/`not in`) through `_merge_single_markers`,
+which for rebuilt leaves needs the shape of `str(constraint)` and "no `y` in bound texts" — is what is left.
 * `~=` items: inverting them prints the bounds of the parsed constraint, whose texts are made of version characters
   (Proofs/ParserTotalVC5.lean) — so `invert` of the un-simplified marker of EVERY accepted text is free of lark's
   error (`invert_no_syntax_grammar_all`).
@@ -1983,25 +1985,57 @@ example : parseText "python_version >= \"3.8\" and (sys_platform != \"x\" or ext
 /-- **The text `_merge_python_version_single_markers` rewrites is read back by the grammar** (`pyRewrite ms` is the
 `str'` of the model's `mergePythonVersion`): for a non-swapped `python_full_version` marker with a grammar operator and
 a plain value without the letter `y` (so that `str.replace("python_full_version", "python_version")` cannot touch the
-value — a local version label such as `+python_full_version` could), in the two `.0`-padding cases and the unchanged
-case; the item read back is on `python_version` / `python_full_version`, with the same operator and a plain value.
-The `.0`-dropping case (`DropsZero ms`: precision 3, `<` / `>=`, value ending in `.0`) is not covered. -/
+value — a local version label such as `+python_full_version` could), in all four cases (the two `.0`-padding cases,
+the `.0`-dropping case, the unchanged case); the item read back is on `python_version` / `python_full_version`, with
+the same operator and a plain value. -/
 theorem py_rewrite_text_reparses (ms : Single) (hname : ms.name = "python_full_version") (hsw : ms.swapped = false)
-    (hop : ms.op ∈ ops) (hv : PlainStr ms.value) (hy : 'y' ∉ ms.value.toList) (hnz : ¬ DropsZero ms) :
+    (hop : ms.op ∈ ops) (hv : PlainStr ms.value) (hy : 'y' ∉ ms.value.toList) :
     ∃ n v, (n = "python_version" ∨ n = "python_full_version") ∧ PlainStr v ∧ 'y' ∉ v.toList ∧
       parseText (pyRewrite ms) = .ok (.one (.item n ms.op v false)) :=
-  pyRewrite_parses ms hname hsw hop hv hy hnz
+  pyRewrite_parses ms hname hsw hop hv hy
 
 /-- … so re-parsing it fails with `ValueError` / `.unmodelled` at most, never with lark's error -/
 theorem py_rewrite_no_syntax (ms : Single) (hname : ms.name = "python_full_version") (hsw : ms.swapped = false)
-    (hop : ms.op ∈ ops) (hv : PlainStr ms.value) (hy : 'y' ∉ ms.value.toList) (hnz : ¬ DropsZero ms) (e : PyErr)
+    (hop : ms.op ∈ ops) (hv : PlainStr ms.value) (hy : 'y' ∉ ms.value.toList) (e : PyErr)
     (h : parseItemMarker (pyRewrite ms) = .error e) : e = .value ∨ e = .unmodelled :=
-  parseItemMarker_pyRewrite_no_syntax vc_err_documented ms hname hsw hop hv hy hnz e h
+  parseItemMarker_pyRewrite_no_syntax vc_err_documented ms hname hsw hop hv hy e h
 
 example : parseText (pyRewrite ⟨"python_full_version", ">=", "3.8", false, .gen .any⟩) =
     .ok (.one (.item "python_version" ">=" "3.8" false)) := by decide +kernel
+example : parseText (pyRewrite ⟨"python_full_version", ">=", "3.8.0", false, .gen .any⟩) =
+    .ok (.one (.item "python_version" ">=" "3.8" false)) := by decide +kernel
 example : parseText (pyRewrite ⟨"python_full_version", "==", "3.8", false, .gen .any⟩) =
     .ok (.one (.item "python_full_version" "==" "3.8.0" false)) := by decide +kernel
+
+/-- the model's `mergePythonVersion` re-parses exactly `pyRewrite ms` (definitional unfolding) -/
+theorem merge_python_version_reparses_py_rewrite (d : Nat) (s1 s2 : Single) (isMulti : Bool) :
+    mergePythonVersion d s1 s2 isMulti = (do
+      let (vm, fm) := if s1.name == "python_version" then (s1, s2) else (s2, s1)
+      let nc ← gpcLeaf (.single vm)
+      let nm ← mkSingleOfC "python_full_version" (.ver nc)
+      let merged ← mergeSingle d (.single nm) (.single fm) isMulti
+      match merged with
+      | none => pure none
+      | some mm =>
+        if M.beq mm (.leaf (.single nm)) then pure (some (.leaf (.single vm)))
+        else
+          match mm with
+          | .leaf (.single ms) =>
+            if ms.op == "in" || ms.op == "not in" then pure (some mm) else do
+            let r ← parseItemMarker (pyRewrite ms)
+            pure (some r)
+          | other => pure (some other)) := mergePythonVersion_eq d s1 s2 isMulti
+
+/-- **One step of `_merge_python_version_single_markers` (partial).**  Named hypotheses on the NESTED merge of the two
+`python_full_version` markers: it does not raise lark's error, and a single marker it returns for rewriting is fit
+for it (`PyRw`: named `python_full_version`, not swapped, grammar operator, plain value without the letter `y`).
+Then the step does not raise lark's error. -/
+theorem merge_python_version_step_no_syntax_partial (d : Nat) (s1 s2 : Single) (isMulti : Bool)
+    (hnest_err : ∀ l1 l2 e, mergeSingle d l1 l2 isMulti = .error e → e ≠ .syntax)
+    (hnest_ok : ∀ l1 l2 ms, mergeSingle d l1 l2 isMulti = .ok (some (.leaf (.single ms))) →
+      ¬ ((ms.op == "in" || ms.op == "not in") = true) → PyRw ms)
+    (e : PyErr) (h : mergePythonVersion d s1 s2 isMulti = .error e) : e ≠ .syntax :=
+  mergePythonVersion_no_syntax vc_err_documented vcOpsTotal_good.toMin d s1 s2 isMulti hnest_err hnest_ok e h
 
 end Poetry.C19
 
